@@ -17,6 +17,7 @@ Rules (DESIGN 2.1, appendix A):
 """
 from __future__ import annotations
 
+import os
 import time
 from typing import Any, Callable, Iterator, List, Optional
 
@@ -42,6 +43,25 @@ def cur() -> 'Ctx':
 
 def have_ctx() -> bool:
     return bool(_CUR)
+
+
+def timed_check(solver: z3.Solver, seconds: float) -> str:
+    """solver.check() with a hard deadline: z3's own `timeout` parameter is only polled between
+    steps (a large floating-point bit-blast can overrun it by minutes), so a timer thread also
+    interrupts the context.  Returns 'sat' / 'unsat' / 'unknown'."""
+    import threading
+
+    solver.set('timeout', int(seconds * 1000))
+    timer = threading.Timer(seconds + 1.0, solver.ctx.interrupt)
+    timer.daemon = True
+    timer.start()
+    try:
+        r = str(solver.check())
+    except z3.Z3Exception:
+        r = 'unknown'
+    finally:
+        timer.cancel()
+    return r
 
 
 class Stats:
@@ -125,6 +145,7 @@ class Ctx:
         self.arith = arith
         self.solver = z3.Solver()
         self.solver.set('timeout', timeout_ms)
+        self.timeout_s = timeout_ms / 1000.0
         self.max_paths = max_paths
         self.budget_s = budget_s
         self.concretize_cap = concretize_cap
@@ -138,6 +159,10 @@ class Ctx:
         self._fresh = 0
         self._t0 = time.time()
         self.exhausted = False
+        # a few queries are kept as SMT-LIB2 text so that a check can re-pose them to other solvers
+        self.samples: List[tuple] = []
+        self.sample_every = int(os.environ.get('SYMX_SAMPLE_EVERY', '0') or 0)
+        self._nq = 0
 
     # -- naming -----------------------------------------------------------
     def fresh(self, stem: str) -> str:
@@ -175,16 +200,25 @@ class Ctx:
         if self.budget_s is not None and time.time() - self._t0 > self.budget_s:
             raise Inconclusive('exploration budget exceeded')
         t0 = time.time()
+        self._nq += 1
+        keep = self.sample_every and self._nq % self.sample_every == 0 and len(self.samples) < 3
+        text = None
         if extra:
             s.push()
             for e in extra:
                 s.add(e)
-            r = s.check()
+            if keep:
+                text = s.to_smt2()
+            r = timed_check(s, self.timeout_s)
             s.pop()
         else:
-            r = s.check()
+            if keep:
+                text = s.to_smt2()
+            r = timed_check(s, self.timeout_s)
         self.stats.solver_s += time.time() - t0
         r = str(r)
+        if text is not None:
+            self.samples.append((text, r))
         self.stats.queries[r] = self.stats.queries.get(r, 0) + 1
         if r == 'unknown':
             raise Inconclusive('solver returned unknown: ' + s.reason_unknown())
